@@ -655,8 +655,11 @@ where
             }
             constants::DW_OP_piece => {
                 let size = bytes.read_uleb128()?;
+                let size_in_bits = size
+                    .checked_mul(8)
+                    .ok_or(Error::InvalidExpression(name))?;
                 Ok(Operation::Piece {
-                    size_in_bits: 8 * size,
+                    size_in_bits,
                     bit_offset: None,
                 })
             }
